@@ -34,6 +34,7 @@ VALUESETS = {
     "fuzzy-pad": [-1.01, 0.25, 1.015, 0.5, -0.5, 1.0],
     "fuzzy-out": [-1.0, 0.25, 1.5, 0.5, -0.5, 1.0],
     "fuzzy-out-low": [-1.2, 0.25, 0.5, 0.5, -0.5, 1.0],
+    "near-marker": [0.0, 1e-9, -9999.0, -9999.05, 5e-324, 2.0],  # legitimate values close to a MissingValue of 0 / -9999
 }
 INTSETS = {"plain": [0, 1, 2, 7, 3, 100], "neg": [-2, 1, 0, -5, 3, 8], "fuzzy": [-1, 0, 1, 0, 1, -1]}
 DTYPES = [None, "Float", "Integer", "Positive Float", "Positive Integer", "Fuzzy"]
@@ -150,13 +151,14 @@ def _run_read(case):
     try:
         for m in _placements(n, tier):
             miss = [bool(m >> i & 1) for i in range(n)]
-            if m and not fill and vt != "f8":
-                pass  # netCDF4 masks default fill values for integers too
-            _make_template(os.path.join(work, "in.nc"), grid, {"v": (vt, vals, miss if m else None, fillv)})
+            # a cell whose value equals the variable's _FillValue IS a missing cell of the file (netCDF semantics, not MPilot's)
+            miss = [mm or (fillv is not None and v_ == fillv) for mm, v_ in zip(miss, vals)]
+            _make_template(os.path.join(work, "in.nc"), grid, {"v": (vt, vals, miss if any(miss) else None, fillv)})
             valid = [v for v, mm in zip(vals, miss) if not mm]
             mvs = [None, 12345]
-            if valid:
-                mvs.append(valid[0])
+            for v_ in valid:  # every value present in the data is tried as the MissingValue (exact matches only may become missing)
+                if v_ not in mvs:
+                    mvs.append(v_)
             for dtype in DTYPES:
                 for mv in mvs:
                     if mv is not None and dtype in ("Integer", "Positive Integer") and mv != int(mv):
